@@ -14,7 +14,9 @@ EXPLANATION = (
     "arguments (same table and table length, same SCAL2TYP/SCAL2EPO decoding); the decoding macros applied to each enumerator's value give "
     "the type and epoch its name spells; the serialiser spells every scale by its enumerator's name. R15.2: a conversion that has an "
     "out-of-coverage sentinel return (0 / nil) has that sentinel tested at each call site before the value is used. R15.3: the month-start "
-    "tables are strictly increasing (necessary for a monotone day mapping and for the linear scan).")
+    "tables are strictly increasing (necessary for a monotone day mapping and for the linear scan). R15.4: every read of a month-transition table is dominated by "
+    "index-in-range facts on both sides: an exhausted scan (day behind the last transition) and a scan that never advanced (day before the "
+    "first month) are rejected, not converted.")
 NOT_DECIDED = ("the arithmetic of hij2mjd/mjd2hij/g2mjd/mjd2g: bijection and day-consecutiveness over the 7.3e5 (scale, day) pairs is an "
                "enumeration for a dynamic family; the behaviour itself")
 TRUSTED = ["clang 14 parser/CFG builder", "echse-facts extractor", "python rule engines in /verif/sa"]
